@@ -172,8 +172,20 @@ int main(int argc, char** argv) {
         dA = int(a.geti("dA", dA)); dB = int(a.geti("dB", dB)); dC = int(a.geti("dC", dC)); lenI = int(a.geti("lenI", lenI));
         for (auto sv : svs) for (uint32_t f : alpha::subsets(alpha::R())) add(sv, f, {}, dA, false);
         plan.push_back("A: depth " + std::to_string(dA) + " from [] under all 256 subsets of R x 3 sigversions");
-        for (auto sv : svs) for (uint32_t f : alpha::deviation1()) { add(sv, f, {}, dB, true); add(sv, f, stack7, std::max(1, dB - 1), true); }
-        plan.push_back("B: depth " + std::to_string(dB) + " from [] and depth " + std::to_string(std::max(1, dB - 1)) + " from a 7-item stack under the 44 flag sets within one deviation of NONE/STANDARD x 3 sigversions");
+        {
+            // one-flag deviations of NONE / STANDARD: over all 21 flags at depth dB (quick) ; in the thorough tier the 18 sets that deviate in an
+            // execution-relevant flag go to depth dB and the remaining ones to depth dB-1 (depth 4 under all 44 x 3 does not finish in reasonable time)
+            std::set<uint32_t> rdev; rdev.insert(0); rdev.insert(ref::F_STANDARD);
+            for (uint32_t b : alpha::R()) { rdev.insert(b); rdev.insert(ref::F_STANDARD ^ b); }
+            int ndeep = 0, nshallow = 0;
+            for (auto sv : svs) for (uint32_t f : alpha::deviation1()) {
+                bool deep = tier == "quick" || rdev.count(f);
+                int d = deep ? dB : dB - 1;
+                (deep ? ndeep : nshallow)++;
+                add(sv, f, {}, d, true); add(sv, f, stack7, std::max(1, d - 1), true);
+            }
+            plan.push_back("B: depth " + std::to_string(dB) + " from [] and depth " + std::to_string(std::max(1, dB - 1)) + " from a 7-item stack under " + std::to_string(ndeep) + " (sigversion, flag set) configurations within one deviation of NONE/STANDARD" + (nshallow ? "; one level less under the remaining " + std::to_string(nshallow) : ""));
+        }
         if (dC > 0) { for (auto sv : svs) for (uint32_t f : {0u, ref::F_STANDARD}) add(sv, f, {}, dC, true); plan.push_back("C: depth " + std::to_string(dC) + " from [] under {NONE, STANDARD} x 3 sigversions"); }
         for (auto sv : svs) for (uint32_t f : {0u, ref::F_STANDARD}) for (auto& init : tuples(Vs, lenI)) if (!init.empty()) add(sv, f, init, 2, false);
         plan.push_back("D: depth 2 from every initial stack over Vs of length 1.." + std::to_string(lenI) + " under {NONE, STANDARD} x 3 sigversions");
